@@ -397,7 +397,7 @@ def node_kinds(t, acc):
     k = t[0]
     if k in ('bin', 'cmp', 'reduce'): k = f'{k}:{t[1]}'
     if k == 'assign': k = 'assign:' + ('blocking' if t[1] else 'nonblocking')
-    if k == 'for': k = 'for:' + ('neg' if t[7] else 'pos')
+    if k == 'for': k = 'for:' + ('neg' if t[6] else 'pos')
     acc[k] = acc.get(k, 0) + 1
     for x in t[1:]: node_kinds(x, acc)
   return acc
@@ -625,7 +625,9 @@ def run_batch(ck, be, designs, stats, ncycles, nstores, tie=True, keep=False):
           ck.disagreement('VTr.trStmt≈' + ('VBehavioralTranslator' if be == 'verilog' else 'YosysBehavioralTranslator'),
                           {'label': d['label'], 'backend': be, 'src': d['src'], 'module': m[1], 'block': m[2]}, 'tr(model of RTLIR): ' + rep[:300], 'parsed real text')
     for m in getattr(j, 'blk_meta', []):
-      if m[0] != 'line': stats['tie:' + m[0]] = stats.get('tie:' + m[0], 0) + 1
+      if m[0] != 'line':
+        key = 'tie:' + m[0] + (':' + m[3] if m[0] == 'unmodelled' else '')
+        stats[key] = stats.get(key, 0) + 1
     if d.get('finding') and not found:
       stats['finding-not-reproduced:' + d['finding']] = stats.get('finding-not-reproduced:' + d['finding'], 0) + 1
   if not keep:
